@@ -53,7 +53,10 @@ def explore(prop, tier, seed, count, profiles, tag):
             if "error" in sr:
                 res["errors"].append(f"coqc failed on {os.path.basename(sr['path'])}: {sr['error']}")
                 continue
-            if not sr["corr"] and not sr["spec"] and not sr["illformed"]:
+            # a shard is discharged when every case in it checks, listed known findings aside
+            unexplained = [i for kind in ("corr", "spec", "illformed") for i in sr[kind]
+                           if not (i < len(recs) and D.known_class_of(prop, recs[i]))]
+            if not unexplained:
                 res["shards_ok"] += 1
             for kind in ("corr", "spec", "illformed"):
                 for i in sr[kind]:
@@ -123,6 +126,8 @@ def run_property(prop, tier, seed):
         tie_broken.append({"what": "correspondence run", "detail": ex["errors"][:5]})
     if ex["illformed"]:
         tie_broken.append({"what": "harness produced ill-formed inputs", "detail": [r.get("i") for r in ex["illformed"][:10]]})
+    # (a listed known finding fails the correspondence too: it is reported as such below)
+    ex["corr_fail"] = [r for r in ex["corr_fail"] if not D.known_class_of(prop, r)]
     if ex["corr_fail"]:
         tie_broken.append({"what": "correspondence: model and implementation disagree",
                            "detail": [{"i": r.get("i"), "tag": r.get("tag"), "work": r.get("work"), "obs": r.get("obs"), "profile": r.get("profile")} for r in ex["corr_fail"][:8]]})
@@ -143,8 +148,11 @@ def run_property(prop, tier, seed):
     for r in spec_fail:
         k = D.known_class_of(prop, r)
         (known if k else unknown).append((r, k))
-    for r, k in known[:1]:
-        print(f"KNOWN-FINDING: property={prop} {k['what']}", flush=True)
+    seen_classes = []
+    for r, k in known:
+        if k["class"] not in seen_classes:
+            seen_classes.append(k["class"])
+            print(f"KNOWN-FINDING: property={prop} {k['what']}", flush=True)
 
     wall = time.time() - t0
     n_thm = len(props["theorems"])
@@ -191,6 +199,8 @@ def run_property(prop, tier, seed):
         },
         "assumptions": D.TRUSTED_BASE, "wall_s": round(wall, 1), "violations": violations,
     }
+    if seen_classes:
+        evidence["coverage"]["known_findings_reproduced"] = seen_classes
     if changed:
         evidence["coverage"]["source_changed_since_model"] = changed
     if ex.get("notes"):
